@@ -369,7 +369,10 @@ def frame_cases(draw):
     # how: the connection is entered through the named helper, or through add_connection in two calls that
     # partition the tied unknowns (mask) in either order
     return dict(member=spec, split=split, F=F, hinged=draw(st.booleans()), how=draw(st.sampled_from(["api", "api", "two_calls"])),
-                mask=draw(st.lists(st.booleans(), min_size=6, max_size=6)), rev=draw(st.booleans()))
+                mask=draw(st.lists(st.booleans(), min_size=6, max_size=6)), rev=draw(st.booleans()),
+                # a settlement prescribed on ONE of the two coincident joint nodes, for one tied translation: the connection is
+                # what carries it to the other member ([which of the two nodes, which translation, value / 100] or None)
+                settle=draw(st.one_of(st.none(), st.none(), st.tuples(st.integers(0, 1), st.integers(0, 2), st.integers(-4, 4)).map(list))))
 
 
 def check_frame(case, rec):
@@ -426,15 +429,25 @@ def check_frame(case, rec):
     Fg = frame.T @ np.array(case["F"], float)
     tr = unk[:dim]
     simu.add_neumann(Fnode, [float(Fg[i]) for i in range(dim)], tr)
+    settle = case.get("settle")
+    if settle is not None:
+        sn, sk, sv = int(nm[settle[0]]), unk[settle[1] % dim], settle[2] / 100.0 * L
+        simu.add_dirichlet(np.array([sn]), [float(sv)], [sk])
+        rec.label("frame:settlement_on_one_joint_node")
     u = np.asarray(simu.Solve(), float).ravel()
     dof_n = len(unk)
     U = u[: mesh.Nn * dof_n].reshape(mesh.Nn, dof_n)
+    if not np.all(np.isfinite(U)):
+        raise Inconclusive("non-finite solution")
     scale = np.abs(U).max() + 1e-9
+    if settle is not None:
+        rec.close(U[sn, settle[1] % dim] - sv, scale, 1e-12, "settlement_held", f"{kind} {dim}D: the settlement {sv} prescribed on joint node {sn} "
+                  f"({sk}) is {U[sn, settle[1] % dim]!r}", **sig)
     ncon = dof_n if not case["hinged"] else (len(tied) if two_calls else dim)
     rec.close(U[nm[0], :ncon] - U[nm[1], :ncon], scale, 1e-9, "connection_constraint",
               f"{kind} {dim}D: connected dofs differ across the joint: {U[nm[0]]} vs {U[nm[1]]}", **sig)
     rec.close(U[n1[0]], scale, 1e-12, "clamp_held", "", **sig)
-    if not case["hinged"]:
+    if not case["hinged"] and settle is None:
         # same response as the single continuous member (C10 closed forms hold for it)
         ref = dict(spec)
         ref["ne"] = 4
@@ -894,3 +907,66 @@ def check_prescribed_damage(case, rec):
 
 SUBS.append(Sub("prescribed_damage", check_prescribed_damage, enum=enum_prescribed_damage,
                 doc="element type x AT1 / AT2 x damage solver x with / without driving force x prescribed value and node set"))
+
+
+# ------------------------------------------------------------------------------------------
+# (added by the lead, round 8) whatever a Newton-incremental Solve() RETURNS solves the assembled equations: the residual the
+# library assembles at the returned state vanishes on the free dofs to the accuracy of its own stopping rule, for generous and
+# for tight iteration budgets (maxIter is a documented option; a step that cannot converge within it must not return)
+
+
+@st.composite
+def newton_residual_cases(draw):
+    return dict(elemType=draw(st.sampled_from(["TRI3", "QUAD4", "TRI6"])), law=draw(st.sampled_from(["NeoHookean", "SaintVenantKirchhoff"])),
+                maxIter=draw(st.sampled_from([2, 3, 4, 5, 6, 20])), ux=draw(st.integers(-3, 6)) / 10.0, uy=draw(st.integers(-4, 4)) / 10.0,
+                unit=draw(st.sampled_from([1.0, 1.0, 1e6, 1e-3])))
+
+
+def check_newton_residual(case, rec):
+    sq = [[0.0, 0.0], [3.0, 0.0], [3.0, 1.0], [0.0, 1.0]]
+    et = case["elemType"]
+    r = dict(verts=sq, h=0.5, elemType=et, organised=True, extrude=None, layers=0, A=None, b=None, perm=None, orphans=0)
+    mesh = gm.build(r)
+    X = np.asarray(mesh.coord, float)
+    unit = float(case["unit"])
+    mat = Models.HyperElastic.NeoHookean(2, K=5.0 * unit) if case["law"] == "NeoHookean" else Models.HyperElastic.SaintVenantKirchhoff(2, 2.0 * unit, 1.0 * unit)
+    absTol = min(1e-6 * unit, 0.5)  # the setter accepts 0 < absTol < 1
+    simu = Simulations.HyperElastic(mesh, mat, absTol=absTol, relTol=1e-10, incTol=1e-11 , maxIter=int(case["maxIter"]))
+    sig = dict(law=case["law"], elemType=et, maxIter=int(case["maxIter"]))
+    rec.label("newton:" + case["law"], f"maxIter:{case['maxIter']}")
+    n0 = np.where(X[:, 0] <= 1e-9)[0]
+    nL = np.where(X[:, 0] >= 3.0 - 1e-9)[0]
+    simu.add_dirichlet(n0, [0.0, 0.0], ["x", "y"])
+    simu.add_dirichlet(nL, [float(case["ux"]) * 3.0, float(case["uy"]) * 3.0], ["x", "y"])
+    try:
+        u = np.asarray(simu.Solve(), float).ravel()
+    except Exception as e:
+        if not ("converge" in str(e).lower() or "det(F) < 0" in str(e) or "singular" in str(e).lower()):
+            raise
+        rec.label("newton:refused")
+        rec.nontrivial(abs(case["ux"]) + abs(case["uy"]) > 0)  # a refusal decides the case as much as a returned state
+        return  # the library said the step did not converge: nothing is returned, nothing to hold
+    rec.label("newton:returned")
+    if not np.all(np.isfinite(u)):
+        raise Inconclusive("non-finite state returned")
+    pt = simu.problemType
+    known, unknown = simu.Bc_dofs_known_unknown(pt)
+    presc = np.asarray(simu.Bc_vector_Dirichlet(), float).ravel()
+    rec.close(u[known] - presc[known], float(np.abs(presc).max()) + 1e-300, 1e-12, "newton_dirichlet_held", "constrained dofs of the returned state", **sig)
+    # the residual assembled by the library at the returned state (the assembly reads the current Newton state)
+    state = simu._Solver_Get_Newton_Raphson_current_solution()
+    state[:] = u
+    simu.Need_Update()
+    F = orc.dense(simu.Get_K_C_M_F(pt)[3]).ravel()
+    R = -F - np.asarray(simu.Bc_vector_Neumann(pt), float).ravel()
+    rf, rk = float(np.linalg.norm(R[unknown])), float(np.linalg.norm(R[known]))
+    # stopping rule: |R| < absTol, or |R| / |R_0| < relTol, or |du| < incTol, all evaluated one iteration before the state that is
+    # returned (Newton converges quadratically from there); 1e-6 of the reactions is far above all three
+    rec.note_max("newton_rel_residual", rf / (rk + absTol))
+    rec.require(rf <= 10 * absTol + 1e-6 * rk, "newton_returned_state_solves", f"{case['law']} {et} maxIter={case['maxIter']}: Solve() returned a state whose "
+                f"assembled residual on the free dofs is {rf:.3e} (reactions {rk:.3e}, absTol {absTol:.1e})", **sig)
+    rec.nontrivial(abs(case["ux"]) + abs(case["uy"]) > 0)
+
+
+SUBS.append(Sub("newton_residual", check_newton_residual, gen=newton_residual_cases, quick=40, thorough=400, shards=4,
+                doc="hyperelastic block, one prescribed displacement increment of any size, maxIter 2 .. 20: either Solve() refuses, or the returned state solves the assembled equations"))
